@@ -46,6 +46,10 @@ WITNESSES = [
     ('last_word_escape',
      lambda pr: [('call', 'cmd', ('seq', [('alt', [pr.new(['P1', 'Q']), ('nt', 'U')]), ('lit', 'z', None)]))],
      ['foo'], ''),
+    ('within_word_literal_shadows_nonterminal',
+     lambda pr: [('call', 'cmd', ('seq', [('sub', [('lit', '--x=', None), ('alt', [('lit', 'abc', None), ('nt', 'U')])]),
+                                          ('lit', 'z', None)]))],
+     ['--x=abcd'], ''),
 ]
 
 
@@ -56,7 +60,7 @@ def case_stream(ctx):
         pr = mspec.Probes()
         yield ('witness:' + cls, mk(pr), pr, [(ws, p)])
     # same-shaped within-word expressions with different accepting sets: always, with all their queries
-    for st, pr, qs in mspec.shape_family():
+    for st, pr, qs in mspec.shape_family() + mspec.greedy_family():
         yield ('targeted', [mspec.normalize_stmt(x) for x in st], pr, list(qs))
     # the targeted family: the pairs of item kinds: a seed-determined third in the quick tier, all otherwise; the others always
     pairs, others = mspec.targeted_family()
@@ -370,8 +374,9 @@ def shrink(exe, stmts, probes, ws, pre, wb, known, budget_s=60):
     return stmts, ws, pre
 
 
-KNOWN = ('piece_boundary', 'last_word_escape')
-CLASS_OF = {'piece_boundary': 'within_word_accepts_at_piece_boundary', 'last_word_escape': 'last_word_escape'}
+KNOWN = ('piece_boundary', 'last_word_escape', 'greedy_shadow')
+CLASS_OF = {'piece_boundary': 'within_word_accepts_at_piece_boundary', 'last_word_escape': 'last_word_escape',
+            'greedy_shadow': 'within_word_literal_shadows_nonterminal'}
 
 
 def run(ctx, res):
